@@ -79,6 +79,22 @@ def observe_merged(mod, m, argi, names, metas=True, loopmetas=True):
     return got, out
 
 
+def observe_only(mod, m, argi, selnames):
+    """Run f under one probe made of exactly the selectors f > n for n in selnames."""
+    from ptera import probing
+
+    got = []
+    with probing(*[f"f > {n}" for n in selnames], env=vars(mod), raw=True) as prb:
+
+        def sub(d):
+            for k, c in d.items():
+                got.append((c.name, prorun.norm(c.value)))
+
+        prb.subscribe(sub)
+        out = prorun.run_call(mod, mod.f, argi, m["script"])
+    return got, out
+
+
 def first_diff(a, b):
     k = 0
     while k < min(len(a), len(b)) and a[k] == b[k]:
